@@ -91,17 +91,17 @@ Definition array_root_elem_name (s : name) : name :=
   match after_last 42 s1 with Some t => t | None => s1 end.
 Definition interface_type_name : name := [105; 110; 116; 101; 114; 102; 97; 99; 101; 32; 123; 125]. (* "interface {}" *)
 
-(* ref.go checkEncodeRefMap.  A key that can never match (by-value structs, empty slices) is
-   modelled as address 0. Returns (Some ordinal) for a hit of the same kind, else None together
-   with the (possibly extended) table. *)
-Fixpoint ref_find (refs : list (Z * rkind)) (addr : Z) (i : Z) : option (Z * rkind) :=
+(* ref.go checkEncodeRefMap: the table is keyed by address AND kind (a list and its first element
+   share an address).  A key that can never match (by-value structs, empty slices) is modelled
+   as address 0.  Returns (Some ordinal) for a hit, else None together with the extended table. *)
+Fixpoint ref_find (refs : list (Z * rkind)) (addr : Z) (k : rkind) (i : Z) : option Z :=
   match refs with
   | [] => None
-  | (a, k) :: r => if (a =? addr) && negb (addr =? 0) then Some (i, k) else ref_find r addr (i + 1)
+  | (a, k') :: r => if (a =? addr) && rkind_eqb k k' && negb (addr =? 0) then Some i else ref_find r addr k (i + 1)
   end.
 Definition check_ref (st : estate) (k : rkind) (addr : Z) : option Z * estate :=
-  match ref_find (erefs st) addr 0 with
-  | Some (i, k') => if rkind_eqb k k' then (Some i, st) else (None, st)   (* other kind: not registered *)
+  match ref_find (erefs st) addr k 0 with
+  | Some i => (Some i, st)
   | None => (None, {| ecls := ecls st; erefs := erefs st ++ [(addr, k)]; enm := enm st; eout := eout st |})
   end.
 
@@ -153,9 +153,9 @@ Fixpoint write_data (v : gval) (st : estate) : eres :=
   | VUnexported => Err ECodec
   | VBad => Err ECodec
   | VSeen k addr =>
-    match ref_find (erefs st) addr 0 with
-    | Some (i, k') => if rkind_eqb k k' then Ok (write_ref st i) else Panic   (* ill-formed input of the model *)
-    | None => Panic
+    match ref_find (erefs st) addr k 0 with
+    | Some i => Ok (write_ref st i)
+    | None => Panic                                                         (* ill-formed input of the model *)
     end
   | VStruct addr ty fields =>
     match check_ref st RStruct addr with
